@@ -452,8 +452,97 @@ func routerCounts(w *world.W) string {
 	return strings.Join(s, " ")
 }
 
+// faultHistoryScenario: minority failures must be tolerated whatever happened before the call.
+//   late-start:         node x was down when the manager was created and has been listening since; then node y
+//                       crashes; a call that needs two of the three nodes must succeed with the other two.
+//   error-then-success: in a first call node x's handler fails (tolerated); in the second call every handler
+//                       succeeds but node y has crashed: the second call must succeed with the other two,
+//                       among them node x's reply.
+func faultHistoryScenario(kind, mode string, x, y int) func() {
+	return func() {
+		o := world.Opts{N: 3, Window: 4}
+		if mode == "late-start" {
+			o.Down = make([]bool, 3)
+			o.Down[x-1] = true
+		}
+		w := world.New(o)
+		if w.Cfg == nil {
+			return
+		}
+		failTok := -1
+		w.Handle = func(h *world.HCtx) world.Reply {
+			if h.Tok == failTok && h.Node == x {
+				return world.Reply{Err: handlerError(x)}
+			}
+			return world.Reply{}
+		}
+		settle := func() {
+			mc.Quiesce()
+			for i := 0; i < 4 && mc.FireTimers(nil) > 0; i++ {
+				mc.Quiesce()
+			}
+		}
+		mk := func() *world.Call {
+			c := w.NewCall(kind)
+			c.Verdict = func(inv *world.QFInv) { inv.Level = len(inv.Keys); inv.Quorum = len(inv.Keys) >= 2 }
+			return c
+		}
+		name := fmt.Sprintf("fault-history/%s/%s/x=%d/y=%d", kind, mode, x, y)
+		key := classOf(kind) + "/" + mode
+		switch mode {
+		case "late-start":
+			mc.Quiesce()
+			w.FW.Restart(world.Addr(x)) // the node starts listening
+			settle()
+		case "error-then-success":
+			a := mk()
+			failTok = a.Tok
+			w.Start(a)
+			settle()
+			if done, err := callDone(a); !done || err != nil {
+				fail("C07/minority-not-tolerated", key, "%s: first call: node %d's handler failed, the other two replied, but the call ended with done=%v err=%v", name, x, done, err)
+			}
+		}
+		w.FW.Crash(world.Addr(y))
+		settle()
+		b := mk()
+		w.Start(b)
+		settle()
+		done, err := callDone(b)
+		switch {
+		case !done:
+			fail("C07/left-waiting", key, "%s: node %d is down, nodes %v are healthy and answer, but the call has not completed", name, y, healthyOf(3, y))
+		case err != nil:
+			fail("C07/minority-not-tolerated", key, "%s: node %d is down, the other two nodes are healthy (their handlers succeed) and two replies suffice, but the call failed: %v", name, y, err)
+		}
+		mc.Outcome("done=%v err=%v", done, err != nil)
+	}
+}
+
+func healthyOf(n, failing int) []int {
+	var out []int
+	for i := 1; i <= n; i++ {
+		if i != failing {
+			out = append(out, i)
+		}
+	}
+	return out
+}
+
 func faultInstances(tier string) []Instance {
 	var out []Instance
+	for _, kind := range []string{"QuorumCall", "QuorumCallAsync", "Correctable"} {
+		for _, mode := range []string{"late-start", "error-then-success"} {
+			for x := 1; x <= 3; x++ {
+				for y := 1; y <= 3; y++ {
+					if x == y || (kind != "QuorumCall" && (x+y)%2 == 0 && !thorough(tier)) {
+						continue
+					}
+					out = append(out, Instance{Name: fmt.Sprintf("fault-history/%s/%s/x=%d/y=%d", kind, mode, x, y), Bound: 1, Root: faultHistoryScenario(kind, mode, x, y)})
+				}
+			}
+		}
+	}
 	for _, kind := range []string{"GRPCCall", "QuorumCall", "QuorumCallAsync"} {
 		for _, ow := range []int{1, 2} {
 			out = append(out, Instance{Name: fmt.Sprintf("fault/%s/reset-while-receiver-delivers/one-ways=%d", kind, ow), Bound: 2, Root: oldStreamScenario(kind, ow)})
@@ -535,7 +624,7 @@ func faultInstances(tier string) []Instance {
 
 func init() {
 	register(&Check{ID: "C07",
-		Rule:        "fault enumeration: n in {2,3} x failing subset (minority, majority, all) x failure kind {down at creation, crash, stream reset, crash+restart, crash / reset while the request is still queued behind a sender blocked on a full window (also with a stream call whose quorum function is blocked pending on the failing node), handler error with code Unknown/NotFound/Internal/Unavailable/Canceled} x threshold {healthy, healthy+1} x healthy nodes answering before / after the fault x fault position {before the call, adversary fault thread placed by the explorer at every instant within the deviation bound} x history {none, two earlier stream resets of the failing node healed while idle} x other traffic {none, a concurrent RPC to the failing node}; plus a family in which the stream is reset while the receiver is outside RecvMsg (parked in a delivery) and one-way messages make the sender notice and re-create the stream first x {quorum call, async (+correctable, combo in thorough)}; armed back-off timers are fired to a horizon of 4 rounds before the progress oracle; oracle: success iff the healthy replies satisfy the quorum function, Incomplete names every failing node exactly once with the handler's status or an unavailable-type error, the quorum function never sees a failed node, no call is left waiting for a node whose connection broke (unless that node received the request on a stream created after the fault); an outcome is (instance, result class)",
+		Rule:        "fault enumeration: n in {2,3} x failing subset (minority, majority, all) x failure kind {down at creation, crash, stream reset, crash+restart, crash / reset while the request is still queued behind a sender blocked on a full window (also with a stream call whose quorum function is blocked pending on the failing node), handler error with code Unknown/NotFound/Internal/Unavailable/Canceled} x threshold {healthy, healthy+1} x healthy nodes answering before / after the fault x fault position {before the call, adversary fault thread placed by the explorer at every instant within the deviation bound} x history {none, two earlier stream resets of the failing node healed while idle} x other traffic {none, a concurrent RPC to the failing node}; plus a family in which the stream is reset while the receiver is outside RecvMsg (parked in a delivery) and one-way messages make the sender notice and re-create the stream first x {quorum call, async (+correctable, combo in thorough)}; armed back-off timers are fired to a horizon of 4 rounds before the progress oracle; oracle: success iff the healthy replies satisfy the quorum function, Incomplete names every failing node exactly once with the handler's status or an unavailable-type error, the quorum function never sees a failed node, no call is left waiting for a node whose connection broke (unless that node received the request on a stream created after the fault); an outcome is (instance, result class); plus histories before the call (n=3, two replies suffice): a node that was down at manager creation has started listening, or an earlier call in which one node's handler failed - then another node crashes and the call must succeed with the remaining two",
 		Gen:         faultInstances,
 		Assumptions: []string{"a node with a connection fault never answers (its handler blocks), so it can only contribute an error", "crashes drop in-flight frames (fakegrpc); eventual completion is decided after firing the armed library timers 4 rounds"},
 	})
